@@ -506,6 +506,7 @@ type resultUse struct{ n int }
 func (ix *inliner) hoist(s ast.Stmt, e ast.Expr) bool {
 	var found *ast.CallExpr
 	var h *inlineHelper
+	sawCall := false // another call is evaluated before this point: hoisting a later helper call would reorder effects
 	var walk func(n ast.Expr, cond bool)
 	walk = func(n ast.Expr, cond bool) {
 		if n == nil || found != nil {
@@ -525,9 +526,14 @@ func (ix *inliner) hoist(s ast.Stmt, e ast.Expr) bool {
 			if sel, ok := x.Fun.(*ast.SelectorExpr); ok {
 				walk(sel.X, cond)
 			}
-			if found == nil && !cond {
+			if found == nil && !cond && !sawCall {
 				if hh := ix.helperOf(x); hh != nil && hh.sig.Results().Len() == 1 {
 					found, h = x, hh
+				}
+			}
+			if found != x {
+				if _, isConv := ix.p.TypesInfo.Types[x.Fun]; !isConv || !ix.p.TypesInfo.Types[x.Fun].IsType() {
+					sawCall = true
 				}
 			}
 		case *ast.ParenExpr:
